@@ -31,7 +31,7 @@ BOUNDS = {'quick': 'L<=4 (two-site 2..4), d<=4, D<=4 or complete, <=3 calls x <=
 DTS = (0.05j, -0.3j, 1.0j)
 NITS = (1, 2, 5, 25)
 FAMILIES = [('ising', 2), ('heisenberg_xxz', 2), ('heisenberg_s1', 3), ('bose_hubbard', 2), ('bose_hubbard', 3),
-            ('fermi_hubbard', 4), ('rand0', 2), ('rand0', 3), ('randq', 2), ('randq', 3), ('randqz', 2), ('randqz', 3)]
+            ('fermi_hubbard', 4), ('rand0', 2), ('rand0', 3), ('randq', 2), ('randq', 3), ('randqz', 2), ('randqz', 3), ('prodh', 2), ('prodh', 3)]
 STIFF_FAMILIES = [('rand0s', 3), ('randqs', 3)]
 BSTYLES = ('one', 'random', 'max', 'complete')
 
